@@ -108,4 +108,29 @@ def Table.wf (t : Table) : Bool :=
 def Table.covered (t : Table) (p : String) : Bool :=
   t.restored.contains p || t.derived.contains p || (t.counters.map (·.pfx)).contains p
 
+/-! ## in-place store migration: decode with the old type, re-encode with the current one (`x/lend/keeper/migrate.go`)
+
+A record on the wire is the list of its fields, `none` where proto3 omitted a field that has its default value (0 / false). The
+generated `Unmarshal` writes only the fields PRESENT on the wire into the destination struct and does not reset it
+(`codec.ProtoCodec.Unmarshal` calls `ptr.Unmarshal(bz)`). `MigrateLendPairs` / `MigrateAssetRatesParams` declare ONE destination
+variable before the loop (`migrate.go:160`, `:205`) — `migrateShared`; `migrateFresh` is the loop with a variable per record. -/
+
+abbrev Wire := List (Option Nat)
+
+def decodeInto : List Nat → Wire → List Nat
+  | d :: ds, none :: ws => d :: decodeInto ds ws
+  | _ :: ds, some v :: ws => v :: decodeInto ds ws
+  | _, _ => []
+
+def encode (r : List Nat) : Wire := r.map fun v => if v = 0 then none else some v
+
+def migrateShared : List Nat → List Wire → List Wire
+  | _, [] => []
+  | acc, w :: ws => encode (decodeInto acc w) :: migrateShared (decodeInto acc w) ws
+
+def migrateFresh (n : Nat) (ws : List Wire) : List Wire := ws.map fun w => encode (decodeInto (List.replicate n 0) w)
+
+/-- a well-formed wire record of `n` fields: a present field is never the default value -/
+def Wire.canonical (n : Nat) (w : Wire) : Prop := w.length = n ∧ ∀ x ∈ w, x ≠ some 0
+
 end Comdex.Genesis
